@@ -258,7 +258,6 @@ template<int LAYOUT> static void t_herk() {
   L as0, as1, cs0, cs1; mat_layout_fixed((LAYOUT >> 1) & 1, n, k, as0, as1); mat_layout_fixed(LAYOUT & 1, n, n, cs0, cs1);
   L oa = vf_range(0, 3); L oc = vf_range(0, 3); L up = vf_range(0, 1);
   auto A = mkz(g_za + oa, as0, as1, n, k); auto C = mkz(g_zc + oc, cs0, cs1, n, n);
-  if(LAYOUT == 2) vf_reach("herk_l2");   // column-major A with row-major C is rejected (assert) for every size: the witness sits before the call
   bool rejected = false;
   try { multi::blas::herk(up ? multi::blas::filling::upper : multi::blas::filling::lower, 2.0, A, 3.0, std::move(C)); } catch(...) { rejected = true; }
   if(!rejected) {
@@ -276,7 +275,7 @@ template<int LAYOUT> static void t_herk() {
     if(r != c) vf_assert(blas_tri == (up ? i <= j : i >= j), "the triangle zherk updates is the triangle the user selected");
   }
 }
-#define HK(LY) VF_HARNESS(herk_l##LY) { t_herk<LY>(); if(LY != 2) vf_reach("herk_l" #LY); }
+#define HK(LY) VF_HARNESS(herk_l##LY) { t_herk<LY>(); vf_reach("herk_l" #LY); }   // every layout has accepted inputs (a single row at least), so the witness sits at the end
 HK(0) HK(1) HK(2) HK(3)
 
 // herk with a conjugated factor: A = blas::H(a) (a is k x n) or blas::J(a) (a is n x k; element-wise conjugate).  General rule: zherk computes
